@@ -52,6 +52,7 @@ CONSTANTS
     IteOn,          \* TRUE: conditional expressions
     CallOn,         \* subset of DOMAIN Lib
     AugOn,          \* operators offered for augmented assignments  x op= e   (just outside the translator's subset)
+    ChainOn,        \* TRUE: chained assignments x1 = x2 = e, x2 possibly a parameter (just outside the subset)
     LoopOn,         \* TRUE: counting while loops and for loops over a literal range (just outside the subset)
     MaxToks,        \* bound on the total number of expression nodes of a program (small-scope BFS instances)
     MinStmts, MaxStmts, MaxDepth, MaxNest,   \* MinStmts: a top-level return / Finish needs that many statements
@@ -124,6 +125,8 @@ Start ==
     /\ \/ /\ IF n + 2 <= MaxStmts THEN TRUE ELSE AnyReturn
           /\ \/ \E x \in Locals : want' = [k |-> "assign", name |-> x, op |-> ""]
              \/ \E x \in Scope, op \in AugOn : want' = [k |-> "aug", name |-> x, op |-> op]
+             \/ /\ ChainOn          \* second target: a name that already has a value (parameter / earlier local)
+                /\ \E x \in Locals : \E x2 \in Scope \ {x} : want' = [k |-> "chain", name |-> x, op |-> x2]
           /\ todo' = <<Open("num", MaxDepth)>>
        \/ /\ Len(frames) = 1 => n + 1 >= MinStmts
           /\ want' = [k |-> "ret", name |-> "", op |-> ""]
@@ -197,7 +200,7 @@ Parse(ts, pos) ==
 Parsed == Parse(toks, 1).e
 
 Complete == ~done /\ want.k # "none" /\ todo = <<>>
-Useful == want.k \in {"assign", "aug"} \/ FreeVars(Parsed) # {}          \* no constant tests / constant results
+Useful == want.k \in {"assign", "aug", "chain"} \/ FreeVars(Parsed) # {}          \* no constant tests / constant results
 
 \* a finished expression that may not be used (constant) is built again
 Retry ==
@@ -216,6 +219,9 @@ Commit ==
        \/ /\ want.k = "aug"
           /\ frames' = SetCur([Cur EXCEPT !.stmts = Append(@, Aug(want.op, want.name, e))])
           /\ UNCHANGED assigned
+       \/ /\ want.k = "chain"
+          /\ frames' = SetCur([Cur EXCEPT !.stmts = Append(@, Chain(<<want.name, want.op>>, e))])
+          /\ assigned' = assigned \cup {want.name}
        \/ /\ want.k = "ret"
           /\ frames' = SetCur([Cur EXCEPT !.stmts = Append(@, Ret(e))])
           /\ UNCHANGED assigned
